@@ -467,7 +467,7 @@ pub fn run(tier: Tier, seed: u64) -> i32 {
             "release semantics (debug assertions and overflow checks off)".into(),
         ],
     };
-    execute("C01", tier, seed, spec, &replay, &|run: &Run| {
+    execute("C01", tier, seed, spec, &replay, &|run: &Session| {
         let total = value_universe(tier).len() * query_shapes().len() * FORMS.len();
         run.run_enum("single-clause", total, |i| enum_case(tier, i));
         let sz = tier.pick(Size::quick(), Size::thorough());
